@@ -52,6 +52,30 @@ def run(ctx: Ctx) -> None:
         """the format strings the text of `e` can begin with"""
         if isinstance(e, ast.JoinedStr):
             return [(holder, e)]
+        if isinstance(e, ast.Call) and isinstance(e.func, ast.Attribute) and e.func.attr == "format" and isinstance(e.func.value, ast.Constant) and isinstance(e.func.value.value, str) and not e.keywords:
+            # "{}:{}: ...".format(a, b, ...) with automatic numbering is the f-string with those values; a starred
+            # argument stands for as many leading items of it as fields are left
+            tmpl = e.func.value.value
+            pieces = tmpl.split("{}")
+            if "{" not in "".join(pieces) and "}" not in "".join(pieces):
+                nfields = len(pieces) - 1
+                plain = [a for a in e.args if not isinstance(a, ast.Starred)]
+                stars = [a for a in e.args if isinstance(a, ast.Starred)]
+                vals: List[ast.AST] = []
+                if len(stars) <= 1 and nfields >= len(plain):
+                    for a in e.args:
+                        if isinstance(a, ast.Starred):
+                            vals += [ast.Subscript(value=a.value, slice=ast.Constant(value=i_), ctx=ast.Load()) for i_ in range(nfields - len(plain))]
+                        else:
+                            vals.append(a)
+                    if len(vals) == nfields:
+                        parts: List[ast.AST] = []
+                        for i_, pc in enumerate(pieces):
+                            if pc:
+                                parts.append(ast.Constant(value=pc))
+                            if i_ < nfields:
+                                parts.append(ast.FormattedValue(value=vals[i_], conversion=-1, format_spec=None))
+                        return [(holder, ast.fix_missing_locations(ast.copy_location(ast.JoinedStr(values=parts), e)))]
         if isinstance(e, ast.BinOp) and isinstance(e.op, ast.Add):
             return leading(e.left, at, holder, depth)
         if isinstance(e, ast.Name) and at is not None and depth < 4:
@@ -85,6 +109,11 @@ def run(ctx: Ctx) -> None:
                 # f"{tok.location.filename}:{tok.location.lineno}: ..." (the fields of the same location)
                 ok = len(vals) >= 3 and isinstance(vals[1], ast.Constant) and vals[1].value == ":" and isinstance(vals[2], ast.FormattedValue) and isinstance(vals[2].value, ast.Attribute) \
                     and vals[2].value.attr == "lineno" and norm(vals[2].value.value) == norm(first.value)
+                why = "" if ok else "the message is not `<file of tok.location>:<line of tok.location>:`"
+            elif isinstance(first, ast.Subscript) and isinstance(first.value, ast.Attribute) and first.value.attr == "location" and isinstance(first.slice, ast.Constant) and first.slice.value == 0:
+                # the location unpacked by position: (file name, line)
+                ok = len(vals) >= 3 and isinstance(vals[1], ast.Constant) and vals[1].value == ":" and isinstance(vals[2], ast.FormattedValue) and isinstance(vals[2].value, ast.Subscript) \
+                    and norm(vals[2].value.value) == norm(first.value) and isinstance(vals[2].value.slice, ast.Constant) and vals[2].value.slice.value == 1
                 why = "" if ok else "the message is not `<file of tok.location>:<line of tok.location>:`"
             elif is_self_attr(first, "filename"):
                 ok = len(vals) > 1 and isinstance(vals[1], ast.Constant) and str(vals[1].value).startswith(":")
